@@ -12,18 +12,24 @@ every run of the model that ends in `Outcome.ok r`:
   * `cross_edge_has_handoff`         every edge between two operators that did not receive a handoff joins
                                      two nodes of the same group; handoffs are only inserted on operator–operator edges;
   * `delay_edge_marked`              every edge into a delayed input received a handoff, marked with the declared
-                                     delay (remapped to Loop/LoopLazy for a consumer in a nested loop) — using the
-                                     `SubgraphMerge` guarantee "enemies are never in one group" (C17) as hypothesis;
-  * `barrier_pairs_cross`            same hypothesis restated for barrier / access-order pairs.
+                                     delay (remapped to Loop/LoopLazy for a consumer in a nested loop);
+  * `barrier_pairs_cross`            delayed-edge ends, consecutive access groups and handoff/borrower pairs are in
+                                     different groups (`SubgraphMerge` never merges enemies — proved here);
+
+  * `order_respects_pipe_producers`   in the emitted order the producer of every non-delayed pipe edge precedes its
+                                     consumer (the final `validate_topo_sort` assert, transcribed).
+`EnemiesSeparated` is a theorem (`enemies_separated_holds`, Props/EnemiesSep.lean), not a hypothesis.
 
 PARTIAL (named below): `subgraph_pull_then_push` is proved at the level of the tables and single merges
 (`merge_joins_pull_to_push_partial`); the global tree argument is not carried out — the shape of every subgraph
-of the real output is checked by the harness oracle.  `order_respects_producers` and `loops_contiguous`
-rest on the `SubgraphMerge` invariant (C17) and on `make_loops_contiguous`; they are checked by
-correspondence + oracle only, and the reference-producer part is REFUTED on a witness (finding F18):
-a reference from inside a loop block to a handoff outside is hoisted before the producer.
+of the real output is checked by the harness oracle.  Reference-producer / access-group order and loop
+contiguity rest on the `SubgraphMerge` order invariant (C17, not ported) and on `make_loops_contiguous`; they are
+checked by correspondence + oracle only.  Finding F18 (a reference from inside a loop block to a handoff outside
+was hoisted before the producer) is FIXED in /repo; the former witness is now ordered correctly
+(`reference_producer_order_on_witness_partial`).
 -/
 import HvPart.Model.Partition
+import HvPart.Props.EnemiesSep
 
 namespace HvPart
 
@@ -197,10 +203,12 @@ theorem aux_tryMerge_find (sm sm' : SM) (a b : Nat) (ok : Bool) (h : sm.tryMerge
 /-- edge ids are unique (slot-map keys) -/
 def Flat.UniqueEdgeIds (g : Flat) : Prop := ∀ e ∈ g.edges, ∀ e' ∈ g.edges, e.id = e'.id → e = e'
 
-/-- an edge that left `handoff_edges` touches a handoff node or joins two nodes of one group;
+/-- an edge that left `handoff_edges` touches a handoff node or joins two *different* nodes of one group
+    (a self-loop edge is never selected);
     nodes of one group share their loop context -/
 structure MergeInv (g : Flat) (st : MergeSt) : Prop where
-  hoff : ∀ e ∈ g.edges, e.id ∉ st.hoffEdges → g.hoffAdj e = true ∨ st.sm.find e.src = st.sm.find e.dst
+  hoff : ∀ e ∈ g.edges, e.id ∉ st.hoffEdges →
+    g.hoffAdj e = true ∨ (st.sm.find e.src = st.sm.find e.dst ∧ e.src ≠ e.dst)
   loop : ∀ x, g.nodeLoop (st.sm.find x) = g.nodeLoop x
 
 theorem aux_mergeEdge_inv (g : Flat) (hu : g.UniqueEdgeIds) (st : MergeSt) (e0 : FEdge) (he0 : e0 ∈ g.edges)
@@ -224,8 +232,13 @@ theorem aux_mergeEdge_inv (g : Flat) (hu : g.UniqueEdgeIds) (st : MergeSt) (e0 :
       · exact inv
       · split
         · exact inv
-        · rename_i hloop
+        · rename_i hfind hloop
           have hloop' : g.nodeLoop e0.src = g.nodeLoop e0.dst := by simpa using hloop
+          have hne0 : e0.src ≠ e0.dst := by
+            intro heq
+            apply hfind
+            rw [heq]
+            simp
           simp only
           split
           · -- can connect
@@ -242,11 +255,11 @@ theorem aux_mergeEdge_inv (g : Flat) (hu : g.UniqueEdgeIds) (st : MergeSt) (e0 :
                 · rw [hx', inv.loop e0.dst, ← hloop', ← inv.loop e0.src, ← hx, inv.loop x]
                 · rw [hx', inv.loop e0.src, hloop', ← inv.loop e0.dst, ← hx, inv.loop x]
               have hoffNew : ∀ e ∈ g.edges, e.id ∉ st.hoffEdges →
-                  g.hoffAdj e = true ∨ sm'.find e.src = sm'.find e.dst := by
+                  g.hoffAdj e = true ∨ (sm'.find e.src = sm'.find e.dst ∧ e.src ≠ e.dst) := by
                 intro e he hne
                 rcases inv.hoff e he hne with h | h
                 · exact Or.inl h
-                · exact Or.inr (hkeep _ _ h)
+                · exact Or.inr ⟨hkeep _ _ h.1, h.2⟩
               split
               · rename_i hok
                 split
@@ -254,7 +267,7 @@ theorem aux_mergeEdge_inv (g : Flat) (hu : g.UniqueEdgeIds) (st : MergeSt) (e0 :
                   by_cases hid : e.id = e0.id
                   · have : e = e0 := hu e he e0 he0 hid
                     subst this
-                    exact Or.inr (hjoin hok)
+                    exact Or.inr ⟨hjoin hok, hne0⟩
                   · apply hoffNew e he
                     intro hmem
                     apply hne
@@ -383,12 +396,11 @@ theorem subgraph_single_loop (ts : TopoSortFn) (g : Flat) (hu : g.UniqueEdgeIds)
 theorem aux_find_mem {α} (l : List α) (p : α → Bool) (x : α) (h : l.find? p = some x) : x ∈ l ∧ p x = true :=
   ⟨List.mem_of_find?_eq_some h, List.find?_some h⟩
 
-/-- **Every edge between two operators that crosses groups carries a handoff**: an operator–operator edge
-    without an inserted handoff joins two nodes of the same group.  (That a group is exactly one emitted
-    subgraph is the `SubgraphMerge` range invariant of C17.) -/
-theorem cross_edge_has_handoff (ts : TopoSortFn) (g : Flat) (hu : g.UniqueEdgeIds) (r : PResult)
+/-- an operator–operator edge without an inserted handoff was selected by the merge loop: it joins two
+    different nodes of the same group -/
+theorem aux_edge_without_handoff (ts : TopoSortFn) (g : Flat) (hu : g.UniqueEdgeIds) (r : PResult)
     (h : partitionWith ts g = .ok r) (e : FEdge) (he : e ∈ g.edges) (hop : g.hoffAdj e = false)
-    (hno : e.id ∉ r.hoffEdges) : SM.findIn r.rep e.src = SM.findIn r.rep e.dst := by
+    (hno : e.id ∉ r.hoffEdges) : SM.findIn r.rep e.src = SM.findIn r.rep e.dst ∧ e.src ≠ e.dst := by
   obtain ⟨st, inv, hrep, hhe, _⟩ := aux_ok_shape ts g hu r h
   rw [hrep]
   have hcases : e.id ∉ st.hoffEdges := by
@@ -412,6 +424,20 @@ theorem cross_edge_has_handoff (ts : TopoSortFn) (g : Flat) (hu : g.UniqueEdgeId
   · rw [hop] at h1; cases h1
   · exact h1
 
+/-- **Every edge between two operators that crosses groups carries a handoff**: an operator–operator edge
+    without an inserted handoff joins two nodes of the same group.  (That a group is exactly one emitted
+    subgraph is the `SubgraphMerge` range invariant of C17.) -/
+theorem cross_edge_has_handoff (ts : TopoSortFn) (g : Flat) (hu : g.UniqueEdgeIds) (r : PResult)
+    (h : partitionWith ts g = .ok r) (e : FEdge) (he : e ∈ g.edges) (hop : g.hoffAdj e = false)
+    (hno : e.id ∉ r.hoffEdges) : SM.findIn r.rep e.src = SM.findIn r.rep e.dst :=
+  (aux_edge_without_handoff ts g hu r h e he hop hno).1
+
+/-- **A self-loop edge of an operator always carries a handoff** (it is never selected by the merge loop). -/
+theorem self_edge_has_handoff (ts : TopoSortFn) (g : Flat) (hu : g.UniqueEdgeIds) (r : PResult)
+    (h : partitionWith ts g = .ok r) (e : FEdge) (he : e ∈ g.edges) (hop : g.hoffAdj e = false)
+    (hself : e.src = e.dst) : e.id ∈ r.hoffEdges :=
+  Classical.byContradiction fun hno => (aux_edge_without_handoff ts g hu r h e he hop hno).2 hself
+
 /-- **Exactly the operator–operator edges can receive a handoff, and each at most one**: `hoffEdges` lists
     edge ids (a set: one handoff per listed edge), each the id of an edge neither end of which is a handoff. -/
 theorem handoff_only_on_operator_edges (ts : TopoSortFn) (g : Flat) (hu : g.UniqueEdgeIds) (r : PResult)
@@ -428,25 +454,34 @@ theorem handoff_only_on_operator_edges (ts : TopoSortFn) (g : Flat) (hu : g.Uniq
     exact ⟨e, hm, by simpa using hid, by simpa using hp⟩
   · cases hp
 
-/-- the `SubgraphMerge` guarantee used below (its invariant "no enemies in one group", C17):
-    the two nodes of every enemy pair end in different groups -/
+/-- the two nodes of every enemy pair (delayed edge, consecutive access groups, handoff → borrower; self-pairs
+    excluded) end in different groups -/
 def EnemiesSeparated (g : Flat) (r : PResult) : Prop :=
   ∀ p ∈ g.enemyPairs, SM.findIn r.rep p.1 ≠ SM.findIn r.rep p.2
 
+/-- **Enemy pairs are never merged into one group** — proved for the transcription of `SubgraphMerge` this
+    project runs (`Props/EnemiesSep.lean`: the enemy table invariant of `new` / `try_merge`, lifted through the
+    merge fixpoint); no hypothesis about C17 is needed. -/
+theorem enemies_separated_holds (ts : TopoSortFn) (g : Flat) (r : PResult) (h : partitionWith ts g = .ok r) :
+    EnemiesSeparated g r :=
+  enemies_separated ts g r h
+
 /-- **Every edge into a delayed input (`defer_tick`, `defer_tick_lazy`) crosses a handoff that is marked with
-    the declared delay**, remapped to the loop-level delay when the consumer sits in a nested loop. -/
+    the declared delay**, remapped to the loop-level delay when the consumer sits in a nested loop.  (Also for a
+    delayed self-edge `d -> d`.) -/
 theorem delay_edge_marked (ts : TopoSortFn) (g : Flat) (hu : g.UniqueEdgeIds) (r : PResult)
-    (h : partitionWith ts g = .ok r) (hen : EnemiesSeparated g r)
+    (h : partitionWith ts g = .ok r)
     (e : FEdge) (he : e ∈ g.edges) (hop : g.hoffAdj e = false) (d : Delay) (hd : g.edgeDelay e = some d) :
     e.id ∈ r.hoffEdges ∧ (true, e.id, effectiveDelay g e.dst d) ∈ r.delays := by
+  have hen := enemies_separated_holds ts g r h
   have hmem : e.id ∈ r.hoffEdges := by
     apply Classical.byContradiction
     intro hno
-    have hsame := cross_edge_has_handoff ts g hu r h e he hop hno
+    obtain ⟨hsame, hne⟩ := aux_edge_without_handoff ts g hu r h e he hop hno
     apply hen (e.src, e.dst) _ hsame
     unfold Flat.enemyPairs Flat.barrierPairs
-    simp only [List.mem_append, List.mem_filterMap]
-    refine Or.inl (Or.inl ⟨e, he, ?_⟩)
+    simp only [List.mem_filter, List.mem_append, List.mem_filterMap, bne_iff_ne, ne_eq]
+    refine ⟨Or.inl (Or.inl ⟨e, he, ?_⟩), hne⟩
     simp [Flat.isTick, hd]
   refine ⟨hmem, ?_⟩
   obtain ⟨st, _, _, _, hdel⟩ := aux_ok_shape ts g hu r h
@@ -466,12 +501,25 @@ theorem delay_edge_marked (ts : TopoSortFn) (g : Flat) (hu : g.UniqueEdgeIds) (r
     subst this
     simp [hd]
 
-/-- **Barrier and access-order pairs are in different groups** (restating the C17 guarantee for the pairs
-    `partition_graph` declares as enemies: delayed edges, consecutive access groups, handoff → borrower). -/
-theorem barrier_pairs_cross (g : Flat) (r : PResult) (hen : EnemiesSeparated g r) :
-    (∀ p ∈ g.barrierPairs, SM.findIn r.rep p.1 ≠ SM.findIn r.rep p.2) ∧
-    (∀ p ∈ g.accessPairs, SM.findIn r.rep p.1 ≠ SM.findIn r.rep p.2) := by
-  refine ⟨fun p hp => hen p ?_, fun p hp => hen p ?_⟩ <;> unfold Flat.enemyPairs <;> simp [hp]
+/-- **Barrier, access-order and handoff→borrower pairs are in different groups**: the two ends of a delayed
+    edge (other than a self-edge), members of consecutive access groups of one handoff, and a referenced
+    handoff node and its borrower never share a subgraph. -/
+theorem barrier_pairs_cross (ts : TopoSortFn) (g : Flat) (r : PResult) (h : partitionWith ts g = .ok r) :
+    (∀ p ∈ g.barrierPairs, p.1 ≠ p.2 → SM.findIn r.rep p.1 ≠ SM.findIn r.rep p.2) ∧
+    (∀ p ∈ g.accessPairs, p.1 ≠ p.2 → SM.findIn r.rep p.1 ≠ SM.findIn r.rep p.2) ∧
+    (∀ ref ∈ g.refs, ∀ t, ref.target = some t → t ≠ ref.node →
+      SM.findIn r.rep t ≠ SM.findIn r.rep ref.node) := by
+  have hen := enemies_separated_holds ts g r h
+  refine ⟨fun p hp hne => hen p ?_, fun p hp hne => hen p ?_, fun ref hr t ht hne => hen (t, ref.node) ?_⟩
+  · unfold Flat.enemyPairs
+    simp only [List.mem_filter, List.mem_append, bne_iff_ne, ne_eq]
+    exact ⟨Or.inl (Or.inl hp), hne⟩
+  · unfold Flat.enemyPairs
+    simp only [List.mem_filter, List.mem_append, bne_iff_ne, ne_eq]
+    exact ⟨Or.inl (Or.inr hp), hne⟩
+  · unfold Flat.enemyPairs
+    simp only [List.mem_filter, List.mem_append, List.mem_filterMap, bne_iff_ne, ne_eq]
+    exact ⟨Or.inr ⟨ref, hr, by simp [ht]⟩, hne⟩
 
 /-- full statement: along every emitted subgraph the final colours read Pull* Comp? Push* -/
 def PullThenPushStatement (ts : TopoSortFn) : Prop :=
@@ -500,7 +548,55 @@ theorem merge_joins_pull_to_push_partial (colors : List (Nat × Color)) (src dst
   · exact (hd h).elim
   · exact h
 
-/-! ### the refuted clause: reference producers (finding F18) -/
+/-! ### emitted order: pipe producers (general), reference producers (finding F18, fixed) -/
+
+/-- **The emitted order runs the producer of every non-delayed pipe edge before its consumer**: in the
+    concatenation of the emitted subgraphs (final `subgraph_toposort` order, nodes in subgraph order) the
+    producer of every non-delayed edge into an emitted node (through a pre-existing handoff if there is one)
+    comes strictly earlier.  This is the defensive `validate_topo_sort` assert at the end of `make_subgraphs`,
+    which the model transcribes: an `ok` outcome means it passed (after `make_loops_contiguous`). -/
+theorem order_respects_pipe_producers (ts : TopoSortFn) (g : Flat) (r : PResult)
+    (h : partitionWith ts g = .ok r) (e : FEdge) (he : e ∈ g.edges) (hnt : g.isTick e = false)
+    (hd : e.dst ∈ r.subgraphs.flatten) :
+    ∃ p pi si, orderPred g e = some p ∧ r.subgraphs.flatten.idxOf? p = some pi ∧
+      r.subgraphs.flatten.idxOf? e.dst = some si ∧ pi < si := by
+  have hv : validateOrder g r.subgraphs.flatten = true := by
+    unfold partitionWith at h
+    split at h
+    · cases h
+    · split at h
+      · cases h
+      · cases h
+      · unfold finishPartition at h
+        split at h
+        · cases h
+        · simp only at h
+          split at h
+          · cases h
+          · split at h
+            · cases h
+            · rename_i hval
+              injection h with h
+              subst h
+              simpa using hval
+  unfold validateOrder at hv
+  rw [List.all_eq_true] at hv
+  have h1 := hv e.dst hd
+  rw [List.all_eq_true] at h1
+  have h2 := h1 e (by simp [List.mem_filter, he, hnt])
+  cases hp : orderPred g e with
+  | none => rw [hp] at h2; cases h2
+  | some p =>
+    rw [hp] at h2
+    simp only at h2
+    cases hpi : r.subgraphs.flatten.idxOf? p with
+    | none => rw [hpi] at h2; simp at h2
+    | some pi =>
+      cases hsi : r.subgraphs.flatten.idxOf? e.dst with
+      | none => rw [hpi, hsi] at h2; simp at h2
+      | some si =>
+        rw [hpi, hsi] at h2
+        exact ⟨p, pi, si, rfl, hpi, rfl, by simpa using h2⟩
 
 /-- `a = source_iter; loop { a -> batch -> for_each; b -> batch -> map(#s) -> for_each }; b = source_iter;
     s = source_iter -> singleton()` -/
@@ -513,28 +609,71 @@ def witnessRefIntoLoop : Flat :=
     refs := [⟨5, some 9, false, none⟩],
     loops := [⟨1, none, [2, 3, 4, 5, 6]⟩] }
 
+/-- a root-level borrower of a handoff whose producer and pipe consumer are inside a `loop {}` block:
+    `src -> loop { batch_lazy -> h = handoff() -> for_each }; src2 -> for_each(#h)` -/
+def witnessBorrowerOutsideLoop : Flat :=
+  { nodes := [⟨1, false, "source_iter", none⟩, ⟨2, false, "batch_lazy", some 1⟩, ⟨3, true, "handoff", some 1⟩,
+              ⟨4, false, "for_each", some 1⟩, ⟨5, false, "source_iter", none⟩, ⟨6, false, "for_each", none⟩],
+    edges := [⟨1, 1, 2, "_", "_"⟩, ⟨2, 2, 3, "_", "_"⟩, ⟨3, 3, 4, "_", "_"⟩, ⟨4, 5, 6, "_", "_"⟩],
+    refs := [⟨6, some 3, false, none⟩],
+    loops := [⟨1, none, [2, 3, 4]⟩] }
+
 /-- full statement of the order clause for reference producers -/
 def ReferenceProducerOrderStatement : Prop :=
   ∀ (g : Flat) (r : PResult), partition g = .ok r → ∀ ref ∈ g.refs, ∀ t, ref.target = some t →
     ∀ p ∈ g.producers t, ∀ i j : Nat, (∃ sp, r.subgraphs[i]? = some sp ∧ p ∈ sp) →
       (∃ sb, r.subgraphs[j]? = some sb ∧ ref.node ∈ sb) → i < j
 
-/-- **Refuted: "the emitted order runs every singleton-reference producer before its consumers".**  On the
-    witness the borrower `map(#s)` (node 5, subgraph index 3) is emitted before the producer of the referenced
-    singleton (node 8, subgraph index 4): `make_loops_contiguous` hoists the loop block and reference edges have
-    no loop-ingress ordering edge. -/
-theorem reference_producer_order_refuted :
-    ∃ r, partition witnessRefIntoLoop = .ok r ∧ r.subgraphs = [[1], [7], [2, 3], [4, 5, 6], [8]] := by
-  refine ⟨_, rfl, ?_⟩
-  decide
+/-- **The former F18 witness is ordered correctly** (partial form of `ReferenceProducerOrderStatement`: the
+    instance on the witness on which the clause used to be refuted).  Before the fix in /repo the emitted order was
+    `[[1], [7], [2, 3], [4, 5, 6], [8]]` — the borrower `map(#s)` (node 5) before the producer of the singleton
+    (node 8), because `make_loops_contiguous` hoisted the loop block and reference edges had no loop-ingress
+    ordering edge; with loop-ingress edges for reference / access-order dependencies the producer comes first.
+    Missing for the full statement: that the flat order of `SubgraphMerge` respects every dependency (the C17
+    order invariant, not ported to this transcription) and that `make_loops_contiguous` preserves it given the
+    loop-ingress edges; on the real output this is judged by the harness oracle (`c18-reference-before-producer`,
+    `c18-consumer-before-borrower`, `c18-access-group-order`, `c18-loop-not-contiguous`). -/
+theorem reference_producer_order_on_witness_partial :
+    ∃ r, partition witnessRefIntoLoop = .ok r ∧ r.subgraphs = [[1], [7], [8], [2, 3], [4, 5, 6]] ∧
+      ∀ ref ∈ witnessRefIntoLoop.refs, ∀ t, ref.target = some t → ∀ p ∈ witnessRefIntoLoop.producers t,
+        ∀ i j : Nat, (∃ sp, r.subgraphs[i]? = some sp ∧ p ∈ sp) →
+          (∃ sb, r.subgraphs[j]? = some sb ∧ ref.node ∈ sb) → i < j := by
+  refine ⟨_, rfl, by decide, ?_⟩
+  have hs : (match partition witnessRefIntoLoop with | .ok r => r.subgraphs | _ => []) =
+      [[1], [7], [8], [2, 3], [4, 5, 6]] := by decide
+  intro ref href t ht p hp i j hi hj
+  have href' : ref = ⟨5, some 9, false, none⟩ := by simpa [witnessRefIntoLoop] using href
+  subst href'
+  have ht' : t = 9 := by simpa using ht.symm
+  subst ht'
+  have hp' : p = 8 := by
+    have : witnessRefIntoLoop.producers 9 = [8] := by decide
+    rw [this] at hp; simpa using hp
+  subst hp'
+  obtain ⟨sp, hsp, hmp⟩ := hi
+  obtain ⟨sb, hsb, hmb⟩ := hj
+  -- positions in the concrete order
+  have key : ∀ (l : List (List Nat)), l = [[1], [7], [8], [2, 3], [4, 5, 6]] →
+      ∀ (i j : Nat) (sp sb : List Nat), l[i]? = some sp → 8 ∈ sp → l[j]? = some sb → 5 ∈ sb → i < j := by
+    intro l hl i j sp sb h1 h2 h3 h4
+    subst hl
+    match i, j with
+    | 0, _ => simp at h1; subst h1; simp at h2
+    | 1, _ => simp at h1; subst h1; simp at h2
+    | 3, _ => simp at h1; subst h1; simp at h2
+    | 4, _ => simp at h1; subst h1; simp at h2
+    | (_ + 5), _ => simp at h1
+    | 2, 0 => simp at h3; subst h3; simp at h4
+    | 2, 1 => simp at h3; subst h3; simp at h4
+    | 2, 2 => simp at h3; subst h3; simp at h4
+    | 2, (_ + 3) => omega
+  exact key _ hs i j sp sb hsp hmp hsb hmb
 
-/-- the statement itself fails on the witness -/
-theorem reference_producer_order_statement_refuted : ¬ ReferenceProducerOrderStatement := by
-  intro h
-  obtain ⟨r, hr, hs⟩ := reference_producer_order_refuted
-  have := h witnessRefIntoLoop r hr ⟨5, some 9, false, none⟩ (List.mem_singleton.mpr rfl) 9 rfl 8 (by decide) 4 3
-    ⟨[8], by rw [hs]; rfl, by decide⟩ ⟨[4, 5, 6], by rw [hs]; rfl, by decide⟩
-  omega
+/-- **A borrower outside the loop block that produces and consumes the referenced handoff is rejected**: it would
+    have to run between two members of a block that runs as one unit.  (Before the fix the consumer's block was
+    hoisted in front of the borrower — F18, second signature.) -/
+theorem borrower_outside_loop_block_rejected :
+    partition witnessBorrowerOutsideLoop = .err [3, 6, 2] := by decide
 
 /-! ### non-vacuity -/
 
